@@ -958,11 +958,13 @@ class PureScheduler:                                    # pylint: disable=r0902
         See :meth:`_co_run()` for details; this wrapper only deals with the
         case where the scheduler is itself cancelled while it runs, which
         is what happens to a nested scheduler when its enclosing scheduler
-        terminates early (timeout, critical failure, forever job).
+        terminates early (timeout, critical failure, forever job), or where
+        the orchestration itself fails half-way (e.g. a verbose message
+        that the terminal cannot encode).
         """
         try:
             return await self._co_run()
-        except asyncio.CancelledError:
+        except (asyncio.CancelledError, Exception):
             # pass the cancellation on to our own jobs, wait for them,
             # and shut them down, so that nothing outlives this scheduler
             await self._tidy_tasks(
